@@ -260,7 +260,9 @@ func (it *Interp) conv(dst, src types.Type, x Val) Val {
 					if xt.IsConst() {
 						return &Native{Kind: "float", Data: float64(signed(xt.w, xt.val).Int64())}
 					}
-					it.fail("int->float of symbolic value unsupported")
+					// floating point is not modelled: an opaque number (teleport uses floats for telemetry gauges only);
+					// any later arithmetic or comparison on it is reported as not encodable
+					return &Native{Kind: "float", Data: 0.0, Tag: "symbolic"}
 				}
 			}
 		}
